@@ -4,6 +4,10 @@
 # Evidence / replays go to <out dir>; nothing here is registered evidence.
 OUT=$1; shift
 mkdir -p $OUT/out
+# the binary must come from the unchanged tree: refuse to start while a seeded patch is applied, and
+# rebuild first (a previous ./check under tools/try_seed.sh leaves a build of the patched tree behind)
+git -C /repo diff --quiet || { echo "/repo has uncommitted changes: not starting"; exit 2; }
+( cd /verif/harness && CARGO_NET_OFFLINE=true cargo build --release --quiet ) || exit 2
 cp /verif/harness/target/release/vcheck $OUT/vcheck
 cd /verif
 for id in "$@"; do
